@@ -29,10 +29,34 @@ def applicable(tag):
     return tag != "F0"
 
 
+_FACTS = [None]
+
+
+def _wrapper_payload(t, kind):
+    """A crate-local generic wrapper around Sender::send / Receiver::recv (`fn send_or_panic<T>(q: &Sender<T>, m: T)`):
+    returns the payload type taken from the argument type, or None."""
+    fn = t.get("fn")
+    facts = _FACTS[0]
+    if not fn or facts is None or not fn.get("local"):
+        return None
+    cb = facts.bodies.get(fn.get("res") or "") or facts.bodies.get(fn.get("def") or "")
+    if cb is None or cb.raw.get("impl_self") or len(cb.blocks) > 12:
+        return None
+    want = "crossbeam_channel::Sender::<T>::send" if kind == "send" else "crossbeam_channel::Receiver::<T>::recv"
+    if not any(((x.get("fn") or {}).get("def") or "").startswith(want) for _b, x in cb.calls()):
+        return None
+    at = (t.get("argtys") or [""])[0]
+    m = re.match(r"^&(?:mut )?crossbeam_channel::%s<(.*)>$" % ("Sender" if kind == "send" else "Receiver"), at)
+    return m.group(1) if m else None
+
+
 def is_send(t, payload=None):
     fn = t.get("fn")
-    if not fn or not fn["def"].startswith("crossbeam_channel::Sender::<T>::send"):
+    if not fn:
         return False
+    if not fn["def"].startswith("crossbeam_channel::Sender::<T>::send"):
+        wp = _wrapper_payload(t, "send")
+        return wp is not None and (payload is None or wp == payload)
     if payload is None:
         return True
     return fn["gargs"] and fn["gargs"][0] == payload
@@ -40,8 +64,11 @@ def is_send(t, payload=None):
 
 def is_recv(t, payload=None):
     fn = t.get("fn")
-    if not fn or not fn["def"].startswith("crossbeam_channel::Receiver::<T>::recv"):
+    if not fn:
         return False
+    if not fn["def"].startswith("crossbeam_channel::Receiver::<T>::recv"):
+        wp = _wrapper_payload(t, "recv")
+        return wp is not None and (payload is None or wp == payload)
     if payload is None:
         return True
     return fn["gargs"] and fn["gargs"][0] == payload
@@ -71,6 +98,7 @@ def is_join(t):
 class Roles:
     def __init__(self, facts):
         self.facts = facts
+        _FACTS[0] = facts
         self.stop_senders = []
         self.refill_senders = []
         self.pop_fns = []
@@ -542,6 +570,19 @@ def run(facts, tier, ctx):
                                                           or (st["rv"]["op"] == "Ge" and c.get("v") == 1)):
                                 okf = True
                 filters.append(okf)
+    # the same guard spelled as `if n > 0 { .. }` on the parsed value
+    for b in bodies:
+        for _b2, _s2, st in b.iter_stmts():
+            if st["k"] == "assign" and st["rv"]["k"] == "bin" and st["rv"]["op"] in ("Gt", "Ne", "Ge"):
+                c = st["rv"]["b"]
+                if c.get("k") == "const" and ((st["rv"]["op"] in ("Gt", "Ne") and c.get("v") == 0)
+                                              or (st["rv"]["op"] == "Ge" and c.get("v") == 1)):
+                    for o in b.origins(st["rv"]["a"]):
+                        if o[0] == "call" and (o[2].get("fn") or {}).get("name") == "parse":
+                            # the comparison must decide a branch
+                            dl = st["dst"]["l"]
+                            if any(us == "term" and b.term(ub)["k"] == "switch" for (ub, us) in b.uses_of_local(dl)):
+                                filters.append(True)
     for (b, bi, ty) in parses:
         where = b.loc(bi, "term")
         if "NonZero" in ty:
@@ -578,7 +619,13 @@ def run(facts, tier, ctx):
             if d.startswith("crossbeam_channel::Receiver::<T>::") and fn.get("name") in (
                     "recv", "try_recv", "recv_timeout", "recv_deadline", "iter", "try_iter", "into_iter"):
                 payload = (fn.get("gargs") or ["?"])[0]
+                if re.match(r"^[A-Z]\w*$", payload):
+                    continue            # inside a generic wrapper: judged at the wrapper's call sites
                 recvs.setdefault(payload, []).append((b.id, fn.get("name"), b.loc(bi, "term")))
+            else:
+                wp = _wrapper_payload(tt, "recv")
+                if wp is not None:
+                    recvs.setdefault(wp, []).append((b.id, "recv (via %s)" % fn.get("name"), b.loc(bi, "term")))
     pop_ids_q = set(x.id for x in R.pop_fns)
     for payload, sites in sorted(recvs.items()):
         bodies = sorted(set(x[0] for x in sites))
